@@ -153,6 +153,11 @@ func gen(seed int64, n int, tier string) []interface{} {
 		if r.Intn(5) == 0 {
 			nman = 2 + r.Intn(2)
 		}
+		// a module script with dependencies analysed before a plugins-only script of the same build
+		pluginsOnlyLast := r.Intn(8) == 0
+		if pluginsOnlyLast {
+			nman = 2
+		}
 		dirs := []string{"", "core", "web-app"}
 		declared := []string{}
 		for mi := 0; mi < nman; mi++ {
@@ -165,6 +170,17 @@ func gen(seed int64, n int, tier string) []interface{} {
 			ne := r.Intn(7)
 			if r.Intn(6) == 0 {
 				ne = 6 + r.Intn(10)
+			}
+			if pluginsOnlyLast {
+				m.Kind = "gradle"
+				if mi == 0 {
+					ne = 1 + r.Intn(4)
+				} else {
+					ne = 0
+					m.NoBlock = true
+				}
+			} else if m.Kind == "gradle" && ne == 0 {
+				m.NoBlock = r.Intn(2) == 0
 			}
 			other := r.Intn(3) == 0
 			if m.Kind == "pom" {
